@@ -270,7 +270,8 @@ def run(tier, res, is_known):
                     return
         two_prices = ['1', '2'] if tier == 'quick' else ['1', '2', '3.5']
         for lbs in ([1, 2], [3]) if tier == 'quick' else ([1, 2], [3], [1, 3]):
-            spec = SignalSpec(kind, ['A', 'B'], lbs, two_prices, known=['A'])
+            # the second asset's name extends the first one's ('A' / 'AB'): buffers must still be kept apart
+            spec = SignalSpec(kind, ['A', 'AB'], lbs, two_prices, known=['A'])
             bfs(spec, 4 * (max(lbs) + 2), res, is_known, label='%s %s two assets (B late)' % (kind, lbs), recheck=10)
             fix = fix and res.parts[-1]['fixpoint']
             if any(not is_known(v) for v in res.violations):
